@@ -242,3 +242,7 @@ Arguments ONone {V}.
 Arguments sched_init {V F} n_emitters m with_result.
 Arguments Asked {V F} dqd rows.
 Arguments Told {V F} dqd t.
+Arguments OpAsk {V F} resp.
+Arguments OpAskDqd {V F} resp.
+Arguments OpTell {V F} a.
+Arguments OpTellDqd {V F} a.
